@@ -1,0 +1,176 @@
+//go:build verif
+
+// Package verifhook provides named delay/fault points for the runtime
+// verification build (build tag "verif").
+//
+// Points are configured through the environment variable VERIF_POINTS or
+// through Set:
+//
+//	VERIF_POINTS="memcache.get=sleep(500us,33.0%);other=yield"
+package verifhook
+
+import (
+	"math/rand/v2"
+	"os"
+	"runtime"
+	"strconv"
+	"strings"
+	"sync"
+	"sync/atomic"
+	"time"
+)
+
+const On = true
+
+type action struct {
+	sleep time.Duration
+	prob  float64 // 0..1
+	yield bool
+	fn    func()
+}
+
+var (
+	mu     sync.RWMutex
+	points = map[string]*action{}
+	hits   sync.Map // name -> *atomic.Uint64
+	fired  sync.Map // name -> *atomic.Uint64
+)
+
+func init() {
+	if s := os.Getenv("VERIF_POINTS"); s != "" {
+		for _, kv := range strings.Split(s, ";") {
+			k, v, ok := strings.Cut(strings.TrimSpace(kv), "=")
+			if ok {
+				Set(k, v)
+			}
+		}
+	}
+}
+
+// Set configures a point. spec: "off" | "yield" | "sleep(<dur>[,<p>%])".
+func Set(name, spec string) {
+	mu.Lock()
+	defer mu.Unlock()
+	spec = strings.TrimSpace(spec)
+	switch {
+	case spec == "" || spec == "off":
+		delete(points, name)
+	case spec == "yield":
+		points[name] = &action{yield: true, prob: 1}
+	case strings.HasPrefix(spec, "sleep(") && strings.HasSuffix(spec, ")"):
+		args := strings.Split(spec[6:len(spec)-1], ",")
+		d, err := time.ParseDuration(strings.TrimSpace(args[0]))
+		if err != nil {
+			return
+		}
+		a := &action{sleep: d, prob: 1}
+		if len(args) > 1 {
+			p, err := strconv.ParseFloat(strings.TrimSuffix(strings.TrimSpace(args[1]), "%"), 64)
+			if err == nil {
+				a.prob = p / 100
+			}
+		}
+		points[name] = a
+	}
+}
+
+// SetFunc installs a callback that runs every time the point is reached.
+func SetFunc(name string, fn func()) {
+	mu.Lock()
+	defer mu.Unlock()
+	if fn == nil {
+		delete(points, name)
+		return
+	}
+	points[name] = &action{fn: fn, prob: 1}
+}
+
+func counter(m *sync.Map, name string) *atomic.Uint64 {
+	if v, ok := m.Load(name); ok {
+		return v.(*atomic.Uint64)
+	}
+	v, _ := m.LoadOrStore(name, new(atomic.Uint64))
+	return v.(*atomic.Uint64)
+}
+
+// Hits returns how often the point was reached and how often its action fired.
+func Hits(name string) (reached, actionFired uint64) {
+	return counter(&hits, name).Load(), counter(&fired, name).Load()
+}
+
+func Point(name string) {
+	counter(&hits, name).Add(1)
+	mu.RLock()
+	a := points[name]
+	mu.RUnlock()
+	if a == nil {
+		return
+	}
+	if a.prob < 1 && rand.Float64() >= a.prob {
+		return
+	}
+	counter(&fired, name).Add(1)
+	switch {
+	case a.fn != nil:
+		a.fn()
+	case a.yield:
+		runtime.Gosched()
+	default:
+		time.Sleep(a.sleep)
+	}
+}
+
+// Report records a violation found by an ownership hook. Reports are kept
+// in memory (TakeReports) and appended to $VERIF_HOOK_LOG when set.
+type ReportEntry struct {
+	Kind   string `json:"kind"`
+	Detail string `json:"detail"`
+	Stack  string `json:"stack"`
+}
+
+var (
+	repMu   sync.Mutex
+	reports []ReportEntry
+	repN    atomic.Uint64
+)
+
+func Report(kind, detail string) {
+	var pcs [12]uintptr
+	n := runtime.Callers(2, pcs[:])
+	frames := runtime.CallersFrames(pcs[:n])
+	var sb strings.Builder
+	for {
+		f, more := frames.Next()
+		sb.WriteString(f.Function)
+		sb.WriteString(":")
+		sb.WriteString(strconv.Itoa(f.Line))
+		sb.WriteString(";")
+		if !more {
+			break
+		}
+	}
+	e := ReportEntry{Kind: kind, Detail: detail, Stack: sb.String()}
+	repN.Add(1)
+	repMu.Lock()
+	if len(reports) < 1000 {
+		reports = append(reports, e)
+	}
+	if p := os.Getenv("VERIF_HOOK_LOG"); p != "" {
+		if f, err := os.OpenFile(p, os.O_APPEND|os.O_CREATE|os.O_WRONLY, 0644); err == nil {
+			f.WriteString(`{"kind":` + strconv.Quote(e.Kind) + `,"detail":` + strconv.Quote(e.Detail) + `,"stack":` + strconv.Quote(e.Stack) + "}\n")
+			f.Close()
+		}
+	}
+	repMu.Unlock()
+	os.Stderr.WriteString("VERIF-HOOK " + kind + " " + detail + " " + e.Stack + "\n")
+}
+
+func ReportCount() uint64 { return repN.Load() }
+
+func TakeReports() []ReportEntry {
+	repMu.Lock()
+	defer repMu.Unlock()
+	r := reports
+	reports = nil
+	return r
+}
